@@ -26,7 +26,7 @@ MEM_BASE, MEM_PER_BYTE = 256 << 20, 64
 CPU_BASE, CPU_PER_BYTE = 20.0, 100e-6
 PROBES = ["limit_file_size_exact", "limit_file_size_disabled", "limit_file_grows_after_call", "limit_7z_archive_size", "limit_member_zip", "limit_member_tar",
           "limit_member_7z", "limit_member_duplicate_names", "amp_ods_repeat", "amp_odf_text_space_count", "amp_xlsx_dimension", "amp_entities", "amp_deep_nesting",
-          "amp_ratio_member", "amp_mbox_many_from", "amp_7z_lying_unpack_size", "amp_count_field_fault", "memory_error_under_cap"]
+          "amp_ratio_member", "amp_mbox_many_from", "amp_7z_lying_unpack_size", "amp_count_field_fault", "memory_error_under_cap", "scaling_pair"]
 RULE = ("limit runs: files / archives / members of size L-1, L, L+1 around every explicit limit (max_file_size incl. 0 and a file that grows between "
         "call and consumption, the 100 MiB 7z limit, the per-member knob N in ZIP/TAR/7z incl. duplicate names) with the I/O event log proving "
         "that refused or skipped data was never opened, decompressed or written; amplifier runs: small documents built to amplify (ODS repeats, "
@@ -35,6 +35,7 @@ RULE = ("limit runs: files / archives / members of size L-1, L, L+1 around every
 ASSUMPTIONS = [
     "budget for amplifier families: peak additional RSS <= 256 MiB + 64*U and CPU <= 20 s + 100 us*U, U = max(len(input), declared uncompressed size), calibrated with >= 8x headroom over the fault-free corpus; for blind count-field faults 1 GiB + 256*U and 40 s + 400 us*U (only runaway growth)",
     "RLIMIT_AS is set just above the memory bound: a runaway allocation surfaces as MemoryError (possibly wrapped) or a killed child; candidates are confirmed twice alone",
+    "scaling oracle: a family at size n and 4n; flagged when the larger run needs >= 3 s CPU and more than 12x the smaller one (superlinear cost that the absolute budget is too generous to see)",
     "amplifiers that need a purpose-built document are generated in their simplest form only; the evidence lists which families ran",
     "decompression events are ZipFile.open / TarFile.extractfile / file writes under the private temp dir (audit log)",
 ]
@@ -83,6 +84,7 @@ def gen_case(rng: random.Random, tier: str) -> dict:
             c["layout"] = rng.choice(["solid", "per_file"])
             c["method"] = rng.choice(["copy", "lzma2", "lzma"])
             c["pos"] = rng.choice(["first", "middle", "last"])
+            c["only_big"] = rng.random() < 0.2
         return c
     if r < 0.62:
         fam = rng.choice(["ods_repeat", "ods_repeat", "ods_repeat", "text_space", "xlsx_dimension", "entities", "deep", "ratio_member", "mbox_from", "lying_7z"])
@@ -107,6 +109,13 @@ def gen_case(rng: random.Random, tier: str) -> dict:
         else:
             c.update({"n": rng.choice([100, 5000, 30000])})
         return c
+    if r < 0.70:
+        fam = rng.choice(["mbox_from", "mbox_from", "deep_html", "deep_rtf", "deep_json", "deep_odt", "deep_docx", "html_rows", "docx_paragraphs", "rtf_paragraphs",
+                          "odt_paragraphs", "csv_rows", "zip_members"])
+        base = {"mbox_from": [20000, 30000], "deep_html": [100, 200], "deep_rtf": [150, 400], "deep_json": [200, 230], "deep_odt": [100, 200], "deep_docx": [60, 100],
+                "html_rows": [3000, 6000], "docx_paragraphs": [3000, 6000], "rtf_paragraphs": [3000, 6000], "odt_paragraphs": [3000, 6000], "csv_rows": [20000, 50000],
+                "zip_members": [400, 800]}[fam]
+        return {"mode": "scaling", "family": fam, "n": rng.choice(base), "factor": 4}
     # count / length-field faults on the corpus (S2 numeric attributes and little-endian fields, S1 on OLE files)
     c = iosim.gen_case(rng, tier, fault_free_p=0.0, s2_bias=0.9, entries=["direct"], max_size=400_000)
     c["mode"] = "fault"
@@ -252,6 +261,59 @@ def build_amp(c) -> tuple[bytes, str, int]:
     raise ValueError(fam)
 
 
+def build_scaling(fam: str, n: int) -> tuple[bytes, str]:
+    if fam == "mbox_from":
+        one = b"From a@example.org Tue Jan  2 03:04:05 2024\n"
+        return one * n + b"From: a@example.org\nSubject: s\nDate: Tue, 02 Jan 2024 03:04:05 +0000\n\nbody\n", "s.mbox"
+    if fam.startswith("deep_"):
+        d, route, _u = build_amp({"family": "deep", "fmt": fam[5:], "depth": n})
+        return d, route
+    if fam == "html_rows":
+        return (b"<html><body><table>" + b"".join(b"<tr><td>%d</td><td>cell</td></tr>" % i for i in range(n)) + b"</table></body></html>"), "s.html"
+    if fam == "csv_rows":
+        return b"".join(b"%d,value,more\n" % i for i in range(n)), "s.csv"
+    if fam == "rtf_paragraphs":
+        return b"{\\rtf1\\ansi " + b"".join(b"\\pard paragraph %d\\par\n" % i for i in range(n)) + b"}", "s.rtf"
+    if fam == "docx_paragraphs":
+        body = "".join(f"<w:p><w:r><w:t>paragraph {i}</w:t></w:r></w:p>" for i in range(n))
+        doc = f'<?xml version="1.0"?><w:document {corpus.W}><w:body>{body}<w:sectPr/></w:body></w:document>'
+        return corpus._zip([("[Content_Types].xml", corpus.CT.encode()), ("_rels/.rels", corpus.RELS.encode()), ("word/document.xml", doc.encode()),
+                            ("docProps/core.xml", corpus.CORE.encode())]), "s.docx"
+    if fam == "odt_paragraphs":
+        body = "<office:text>" + "".join(f"<text:p>paragraph {i}</text:p>" for i in range(n)) + "</office:text>"
+        return corpus._odf("application/vnd.oasis.opendocument.text", body), "s.odt"
+    if fam == "zip_members":
+        return corpus._zip([(f"d/m{i}.txt", b"member %d\n" % i) for i in range(n)]), "s.zip"
+    raise ValueError(fam)
+
+
+def _run_scaling(case, viol, probes, log):
+    from sharepoint2text.parsing.router import get_extractor
+    iosim.arm_budgets(240, 3 << 30)
+    fam, n, k = case["family"], case["n"], case["factor"]
+    cpus = []
+    for size in (n, n * k):
+        data, route = build_scaling(fam, size)
+        t0 = time.process_time()
+        try:
+            for r in get_extractor(route)(io.BytesIO(data), route):
+                r.get_full_text()
+            oc = "ok"
+        except Exception as e:
+            oc = type(e).__name__
+        cpus.append((time.process_time() - t0, len(data), oc))
+        del data
+    iosim.disarm_as()
+    (c1, l1, o1), (c2, l2, o2) = cpus
+    probes["scaling_pair"] = 1
+    log.ev("scaling", fam, n, o1, o2)
+    ratio = c2 / max(c1, 0.05)
+    if c2 >= 3.0 and ratio > 3.0 * k and o1 == o2:
+        viol.append({"class": "amplification_time", "sig": f"scaling|{fam}",
+                     "detail": f"{fam}: n={n} ({l1} bytes) took {c1:.2f}s CPU, n={n * k} ({l2} bytes) took {c2:.2f}s: x{ratio:.1f} for x{k} input (outcomes {o1}/{o2})"})
+    return [f"scaling|{fam}|{o2}|{'slow' if c2 >= 3 else 'fast'}"]
+
+
 def _forge_7z_unpack_size(arc: bytes, real: int, declared: int) -> bytes:
     """rewrite the (plain) end header: every 7z-number encoding of the real size is replaced by the declared one, CRCs fixed"""
     import struct
@@ -346,6 +408,8 @@ def _family_sig(case) -> str:
         if f == "ratio_member":
             return f"ratio_member|{case['fmt']}|{case['ext']}"
         return f
+    if case["mode"] == "scaling":
+        return f"scaling|{case['family']}"
     if case["mode"] == "fault":
         ks = sorted({(op[2][1][0] if op[0] == "zip" else "le_field") for op in case["ops"]})
         return f"fault|{iosim.ext_of(case['doc'])}|{'+'.join(ks)}"
@@ -491,6 +555,9 @@ def _run_limit(case, viol, probes, log):
             ok1 = {"name": "ok1.txt", "kind": "file", "doc": "txt", "token": "TOKOK1", "pad": 10}
             ok2 = {"name": "dir/ok2.csv", "kind": "file", "doc": "csv", "token": "TOKOK2", "pad": 10}
             members = {"first": [big, ok1, ok2], "middle": [ok1, big, ok2], "last": [ok1, ok2, big]}[case["pos"]]
+            only_big = bool(case.get("only_big"))
+            if only_big:
+                members = [big]  # nothing else is wanted: the filter set is empty
             if kind == "member_dup":
                 probes["limit_member_duplicate_names"] = 1
                 fmt = "zip" if fmt == "7z" else fmt
@@ -543,7 +610,7 @@ def _run_limit(case, viol, probes, log):
                 viol.append({"class": "limit_not_enforced", "sig": f"member|{fmt}", "detail": f"member of {N + delta} bytes with per-member limit {N} produced a result"})
             if not over and exc is None and "TOKBIG" not in blob:
                 viol.append({"class": "limit_refuses_allowed_size", "sig": f"member|{fmt}", "detail": f"member of exactly {N + delta} bytes (limit {N}) produced no result"})
-            if exc is None and ("TOKOK1" not in blob or "TOKOK2" not in blob):
+            if exc is None and not only_big and ("TOKOK1" not in blob or "TOKOK2" not in blob):
                 viol.append({"class": "limit_skips_wrong_member", "sig": f"member|{fmt}", "detail": f"members within the limit are missing next to an oversize one (limit {N})"})
             if over:
                 too_big = [o for o in opened_sizes if o[2] > N]
@@ -568,6 +635,9 @@ def run_case(case: dict) -> dict:
     if case["mode"] == "limit":
         iosim.arm_budgets(120, 3 << 30)
         nontriv = _run_limit(case, viol, probes, log)
+    elif case["mode"] == "scaling":
+        nontriv = _run_scaling(case, viol, probes, log)
+        faults["scaling:" + case["family"]] = 1
     elif case["mode"] == "amp":
         data, route, U = build_amp(case)
         probes[{"ods_repeat": "amp_ods_repeat", "text_space": "amp_odf_text_space_count", "xlsx_dimension": "amp_xlsx_dimension", "entities": "amp_entities",
